@@ -67,6 +67,12 @@ def gen_unit(rng):
             src, ek = rng.choice(((".objs", "eobj"), (".arr", "num"), (".strs", "str"), ("(push [] .)", "rec")))
             u["pre"] = ["--split-by=" + src]
             sc = sc.push(ek)
+        if mode in ("sort", "group", "filter") and rng.random() < 0.4:
+            # the expression may read a variable set on the command line; in sort/group mode a further, constant sort key
+            # (which runs first and changes nothing) lies between the input and the place where the expression is evaluated
+            u["pre"] = u["pre"] + ["--set", "gv=" + rng.choice(("5", "\"s\"", "[1,2]"))]
+            sc = sc.with_var("gv", "any")
+            u["extra_sort"] = mode != "filter" and rng.random() < 0.7
         if mode == "macro":
             sc = sc.macro_body()
             if rng.random() < 0.4:
@@ -81,6 +87,9 @@ def gen_unit(rng):
                 e = g.gen(kind, sc)
             u["uses_parent"] = uses_parent(e)
         u["expr"] = eg.show(e)
+        # in the other option the same expression is written in another spelling (aliases, commas, padding, leading-dot sugar):
+        # an option that pre-processes its value (splits it at commas, trims it, ...) shows up here
+        u["expr_v"] = eg.show(e, rng, True) if rng.random() < 0.6 else u["expr"]
         u["desc"] = rng.random() < 0.4
     u["funcs"] = sorted(g.used)
     return u
@@ -168,13 +177,14 @@ def run_unit(ctx, unit):
         st.see("nontrivial", ("cache", hash(data) & 0xFFFFFF))
         return
     e = unit["expr"]
+    ev = unit.get("expr_v", e)
     pre = unit.get("pre", [])
     if pre:
         st.count("position_comparisons_under_split")
         if unit.get("uses_parent"):
             st.count("position_comparisons_reaching_parent")
     if mode == "filter":
-        obs = run([core.Case(pre + ["--select=" + e + "=c", "--select", ".=v"], data), core.Case(pre + ["--filter=" + e], data)])
+        obs = run([core.Case(pre + ["--select=" + e + "=c", "--select", ".=v"], data), core.Case(pre + ["--filter=" + ev], data)])
         if obs is None:
             return
         st.count("conclusive")
@@ -188,7 +198,8 @@ def run_unit(ctx, unit):
     elif mode in ("sort", "group"):
         opt = "--sort-by" if mode == "sort" else "--group-by"
         d = " DESC" if (unit["desc"] and mode == "sort") else ""
-        obs = run([core.Case(pre + ["--select=" + e + "=c", "--select", ".=v", opt + "=" + e + d], data),
+        tail = ["--sort-by=(null? .nosuchfield)"] if unit.get("extra_sort") else []
+        obs = run([core.Case(pre + ["--select=" + e + "=c", "--select", ".=v", opt + "=" + ev + d] + tail, data),
                    core.Case(pre + ["--select=" + e + "=c", "--select", ".=v", opt + "=/c/" + d], data)])
         if obs is None:
             return
@@ -203,7 +214,7 @@ def run_unit(ctx, unit):
             # the same, with only a low-cardinality column selected: consecutive rows then often carry equal selected values
             # while the sort expression (which reads the input, not the selection) differs
             narrow = rng_choice_col(unit)
-            obs = run([core.Case(pre + ["--select=" + narrow + "=s", opt + "=" + e + d], data),
+            obs = run([core.Case(pre + ["--select=" + narrow + "=s", opt + "=" + ev + d], data),
                        core.Case(pre + ["--select=" + narrow + "=s", "--select=" + e + "=c", opt + "=/c/" + d], data)])
             if obs is None:
                 return
@@ -215,7 +226,7 @@ def run_unit(ctx, unit):
                 return
             st.count("narrow_sort_comparisons")
     elif mode == "split":
-        obs = run([core.Case(["--select=" + e + "=c"], data), core.Case(["--split-by=" + e], data)])
+        obs = run([core.Case(["--select=" + e + "=c"], data), core.Case(["--split-by=" + ev], data)])
         if obs is None:
             return
         st.count("conclusive")
@@ -283,7 +294,7 @@ def worker(ctx):
 def run(env):
     quick = env.tier == "quick"
     stats = core.run_workers(__name__, "worker", PROP, env.tier, env.seed, env.driver, env.hooks_on,
-                             45 if quick else 600, {"units_per_worker": 1500 if quick else 40000})
+                             90 if quick else 900, {"units_per_worker": 1500 if quick else 40000})
     extra = {"aliases_total": sum(len(v) for k, v in eg.ALIASES.items() if k in eg.PURE),
              "aliases_exercised": len(stats.sets.get("aliases_exercised", ()))}
     return core.finish(PROP, env.tier, env.seed, LEVEL, stats, env.t0, RULE, min_conclusive=3000 if quick else 40000, extra=extra,
